@@ -124,6 +124,68 @@ pub fn exec_rate(case: &Sx) -> Option<Sx> {
     Some(Sx::L(obs.into_iter().map(sx::boolean).collect()))
 }
 
+/// A queue built while no tracing subscriber is installed, kept until one is.
+pub struct LateSubscriber {
+    log: Log,
+    q: metrique_writer::sink::BackgroundQueue<Ent>,
+    join: metrique_writer::sink::BackgroundQueueJoinHandle,
+}
+
+/// To be called while no subscriber is installed.
+pub fn late_subscriber_prepare() -> Option<LateSubscriber> {
+    if subscriber_installed() {
+        return None;
+    }
+    let log: Log = Arc::new(Mutex::new(vec![]));
+    let mut script = Script::default();
+    script.results.insert((1, 1), R_VAL);
+    script.results.insert((1, 3), R_VAL);
+    let stream = RecStream { log: log.clone(), script, gate: None, flush_calls: 0, before_call: None };
+    let (q, join) = BackgroundQueueBuilder::new().capacity(64).flush_interval(Duration::from_millis(20)).build::<Ent>(stream);
+    Some(LateSubscriber { log, q, join })
+}
+
+/// To be called after the subscriber was installed: a validation failure on the old queue, with the limiter's slot free,
+/// must go to the subscriber, not into the stream ("written ... when no tracing subscriber is installed").
+/// Case (8); answer (number of in-band reports) — the model's answer is (0).
+pub fn late_subscriber_check(out: &mut Out, ls: LateSubscriber) {
+    let case = sx::tag(8, vec![]);
+    if !subscriber_installed() {
+        out.count("late_subscriber_skipped");
+        return;
+    }
+    let max = MAX_SECS.load(Ordering::SeqCst);
+    if max > u64::MAX / 2 {
+        out.count("late_subscriber_skipped");
+        return;
+    }
+    let wait = |q: &metrique_writer::sink::BackgroundQueue<Ent>| {
+        let mut f = EntrySink::<Ent>::flush_async(q);
+        let lim = Instant::now() + Duration::from_secs(20);
+        while !poll_once(&mut f) && Instant::now() < lim {
+            std::thread::yield_now();
+        }
+    };
+    for n in 0..5u64 {
+        // a fresh second for every entry: the limiter would let each failure through
+        let d = Duration::from_secs(max + 2 + 2 * n);
+        rlv::force_time(Some(d));
+        MAX_SECS.fetch_max(d.as_secs(), Ordering::SeqCst);
+        ls.q.append(Ent { thread: 1, seq: n, dropped: None });
+        wait(&ls.q);
+    }
+    rlv::force_time(None);
+    drop(ls.q);
+    drop(ls.join);
+    let reports = ls.log.lock().unwrap().iter().filter(|e| matches!(e, Ev::Report(_))).count();
+    let nexts = ls.log.lock().unwrap().iter().filter(|e| matches!(e, Ev::Next(..))).count();
+    if nexts != 5 {
+        out.fail(format!("late-subscriber queue: {nexts} of 5 entries reached the stream"), &case);
+    }
+    out.count("late_subscriber_checks");
+    out.case(&case, &Sx::L(vec![sx::n(reports as u64)]), true);
+}
+
 fn emit(out: &mut Out, case: Sx, key: &str) {
     match exec_rate(&case) {
         Some(imp) => {
@@ -209,17 +271,6 @@ pub fn run_rate(out: &mut Out, rng: &mut Rng, thorough: bool) {
         ops.extend(std::iter::repeat(ROp::Fail).take(5));
         emit(out, rate_case(false, &ops), "rate_idle_then_burst");
     }
-    // last (the limiter's word stays saturated for the rest of the process): the end of the u64 range
-    let top = u64::MAX as u128;
-    let ops = vec![
-        ROp::Set((top - 1) * NS),
-        ROp::Fail,
-        ROp::Fail,
-        ROp::Set(top * NS),
-        ROp::Fail,
-        ROp::Fail,
-        ROp::Set(top * NS + 500_000_000),
-        ROp::Fail,
-    ];
-    emit(out, rate_case(true, &ops), "rate_saturation");
+    // the end of the u64 range is a corpus case (corpus/C01/cases.sx): it runs in a process of its own, because the
+    // limiter's word stays saturated afterwards and nothing would ever be reported again
 }
